@@ -54,6 +54,17 @@ def gen_ops(tier, rng):
         ops.append((f"idx {o} 2 13 {rng.choice([2752, 2752*2+40, 65536+40, 1048616])} {rng.randrange(1, 1<<30)} 0,1", {"cat": "idx-codegen", "p": 13}))
         S = sorted(rng.sample(range(d), rng.randint(1, d)))
         ops.append((f"upd {o} {d} {p} {rng.choice(sizes[:17])} {rng.randrange(1, 1<<30)} {lst(S)} -", {"cat": "upd", "p": p}))
+    # the block planners of the generated-kernel paths (AVX2 and GFNI): more than 10 inputs AND at least as many outputs, output
+    # count not a multiple of 10, shards above minSplitSize - the planner walks output blocks first
+    for (d, p) in [(11, 11), (12, 13), (11, 25), (23, 27), (11, 12), (13, 31), (10, 11), (21, 21)]:
+        for o in ["gfni-,avxgfni-", "gfni-,avxgfni-,g=1", "gfni-,avxgfni-,ms=2048", "-", "gfni-", "avx2-,gfni-,avxgfni-", "g=3"]:
+            for size in ([4096 + 40, 65536 + 1] if tier == "quick" else [256, 4096 + 40, 65536 + 1, 300000]):
+                ops.append((f"enc {rng.choice(['default', 'cauchy'])} {o} {d} {p} {size} {rng.randrange(1, 1<<30)}", {"cat": "enc-planner", "p": p}))
+    # sparse custom matrices under every option row (a zero coefficient must behave the same on every kernel family)
+    for o in OPTMATRIX:
+        for (d, p) in [(12, 4), (5, 3)]:
+            for size in [4097, 20001, 65537 + 13]:
+                ops.append((f"enc sparse:{rng.randrange(1, 999)} {o} {d} {p} {size} {rng.randrange(1, 1<<30)}", {"cat": "enc-sparse", "p": p}))
     # Leopard GF8 / GF16 under every option row and build: the portable butterflies (AVX2/SSSE3 off, noasm, nopshufb) must
     # give the bytes of the SIMD ones - Encode and every Reconstruct mode
     leoshapes = [(2, 2), (5, 3), (10, 4), (17, 8), (40, 20), (3, 9), (1, 1)]
